@@ -518,7 +518,26 @@ def run(ck, facts):
         depth_m = next((m_ for m_ in dms if all(C.strip(a_["b"]).get("k") == "lit" and C.strip(a_["b"]).get("t") == "int" for a_ in m_["arms"])), None)
         take_m = next((m_ for m_ in dms if any(any(x.get("k") == "mcall" and x.get("m") == "next" for x in C.walk(a_["b"])) for a_ in m_["arms"])), None)
         if depth_m is None or take_m is None:
-            ck.bad("R3", "docs::gen_for_rust_link/tables", "cannot find the depth table / the anchor table over DocType", C.loc(dg))
+            # one table may hold both numbers: `Kind => (n_elements, page_prefix, &[anchor prefixes])` -- n = 1 + number of anchor parts (0 for a module)
+            merged = None
+            for g_ in [dg] + [x for x in core.fn_list if "hir" in x and C.norm_path(x["path"]).startswith("diplomat_core::ast::docs::") and x is not dg]:
+                for m_ in C.walk(C.fn_body(g_)):
+                    if m_.get("k") == "match" and (m_.get("sadt") or "").endswith("DocType") and m_["arms"] and all(
+                            C.strip(a_["b"]).get("k") == "tup" and C.strip(a_["b"])["a"] and C.strip(C.strip(a_["b"])["a"][0]).get("k") == "lit" for a_ in m_["arms"]):
+                        merged = (g_, m_)
+            if merged is None:
+                ck.bad("R3", "docs::gen_for_rust_link/tables", "cannot find the depth table / the anchor table over DocType", C.loc(dg))
+            else:
+                badv = {}
+                for a_ in merged[1]["arms"]:
+                    t_ = C.strip(a_["b"])["a"]
+                    n_ = int(C.strip(t_[0])["v"])
+                    arrs = [y for x in t_[1:] for y in C.walk(x) if y.get("k") == "array"]
+                    parts = len(arrs[0]["a"]) if arrs else None
+                    if n_ != 0 and parts is not None and n_ != 1 + parts:
+                        badv[str(a_["pat"].get("v"))] = (n_, 1 + parts)
+                ck.expect(not badv, "R3", "docs::gen_for_rust_link/elements-taken-agree", "%d link kinds (one table)" % len(merged[1]["arms"]),
+                          "link kinds %s reserve a different number of trailing path elements than they have page + anchor parts" % badv, C.loc(merged[0]))
         else:
             depth, takes = {}, {}
             for v, hits in C.decision_table(depth_m, adts):
